@@ -199,6 +199,48 @@ theorem directional_camera_contains {F : Type} (uncastAt : F → K → V3 K → 
   simp only [Bool.not_eq_true', Bool.or_eq_false_iff, decide_eq_false_iff_not, not_lt, not_le] at hp'
   exact ⟨hp'.1.1.1, hp'.1.2, hp'.1.1.2, hp'.2⟩
 
+/-- **The bisection of `DirectionalCamera`, step by step** (any containment test `ok`, any number of
+steps, any initial bracket `lo ≤ hi`): the returned distance stays in the bracket; it is either a
+distance at which the test succeeded or the untouched initial `hi`; and it is tight — there is a
+distance `l`, either the initial `lo` or one at which the test *failed*, with
+`result − l = (hi − lo)/2ⁿ` (for the code: `10⁴·baseline/2³²`). -/
+theorem directional_search_invariant (ok : K → Bool) (n : Nat) (lo hi : K) (h : lo ≤ hi) :
+    lo ≤ dirSearch ok n lo hi ∧ dirSearch ok n lo hi ≤ hi ∧
+      (ok (dirSearch ok n lo hi) = true ∨ dirSearch ok n lo hi = hi) ∧
+      ∃ l, (l = lo ∨ ok l = false) ∧ l ≤ dirSearch ok n lo hi ∧
+        dirSearch ok n lo hi - l = (hi - lo) / 2 ^ n :=
+  dirSearch_invariant ok n lo hi h
+
+/-- **The complete `DirectionalCamera` (model `directionalCamera`: `NewCameraAt`, `Uncaster(1,1)`,
+the eight corners, 32 bisection steps — the function the `dircamf` correspondence runs bit-for-bit
+against the real code) returns a camera that contains the box**, for every box, direction, field of
+view, `sqrt`, provided only that the bisection did not end on its untouched initial upper end
+without that one containing the box (equivalently: some evaluated candidate, or the farthest one,
+contains it). -/
+theorem directional_camera_full_contains (sqrt : K → K) (tiny pd margin loF hiF : K)
+    (mn mx direction : V3 K) :
+    let cam := directionalCamera sqrt tiny pd margin loF hiF mn mx direction
+    let diff := mn.sub mx
+    let baseline := sqrt (diff.x * diff.x + diff.y * diff.y + diff.z * diff.z)
+    let center := (mn.add mx).scale (1 / 2)
+    let ok := fun d => containedBy (candidateUncast sqrt tiny pd center direction d) margin (boxCorners mn mx)
+    (ok (baseline * hiF) = true ∨ dirSearch ok 32 (baseline * loF) (baseline * hiF) ≠ baseline * hiF) →
+    baseline * loF ≤ baseline * hiF →
+      ∀ p ∈ boxCorners mn mx,
+        margin ≤ (cam.uncaster sqrt 1 1 p).1 ∧ (cam.uncaster sqrt 1 1 p).1 < 1 - margin ∧
+        margin ≤ (cam.uncaster sqrt 1 1 p).2 ∧ (cam.uncaster sqrt 1 1 p).2 < 1 - margin := by
+  intro cam diff baseline center ok hhyp hle p hp
+  obtain ⟨_, _, hres, _⟩ := dirSearch_invariant ok 32 (baseline * loF) (baseline * hiF) hle
+  have hok : ok (dirSearch ok 32 (baseline * loF) (baseline * hiF)) = true := by
+    rcases hres with h | h
+    · exact h
+    · rcases hhyp with h' | h'
+      · rw [h]; exact h'
+      · exact absurd h h'
+  have hp' := (List.all_eq_true.mp hok) p hp
+  simp only [Bool.not_eq_true', Bool.or_eq_false_iff, decide_eq_false_iff_not, not_lt, not_le] at hp'
+  exact ⟨hp'.1.1.1, hp'.1.2, hp'.1.1.2, hp'.2⟩
+
 /-- **Record of the second defect found (fixed by the C20 `fix:` commit in helpers.go).**  The old
 `DirectionalCamera` searched with `helperFieldOfView` but returned a camera with the caller's `fov`:
 for a pinhole looking at the square `[-1,1]²` from distance `d` (half-width of the view `f·d`), a
@@ -259,16 +301,18 @@ theorem translated_cast_conj (off : V3 K) (o : Cast K) :
   intro r t
   ext <;> simp [Ray.at, V3.sub, V3.add, V3.scale] <;> ring
 
-/-- **`MatrixMultiply(obj, m)` (hence `Rotate`, `Scale`) is hit exactly where the transformed original
-is.**  With `det m ≠ 0` and the inverse `MatrixMultiply` stores: the inner ray is the pre-image of
-the outer ray, the ray parameter is unchanged, the outer hit point is `m ·` inner hit point, and for
-any surface `S` that `obj` casts correctly the wrapper casts correctly the image of `S` under `m`,
-reporting the normalised `m · n` as normal. -/
+/-- **`MatrixMultiply(obj, m)` (hence `Rotate`, `Scale`, and any invertible matrix: anisotropic
+scales, shears) is hit exactly where the transformed original is.**  With `det m ≠ 0` and the
+inverse `MatrixMultiply` stores: the inner ray is the pre-image of the outer ray, the ray parameter is
+unchanged, the outer hit point is `m ·` inner hit point, and for any surface `S` that `obj` casts
+correctly the wrapper casts correctly the image of `S` under `m`, reporting the normalised
+inverse-transpose image `m⁻ᵀ n` of the inner normal (after the round-2 repair). -/
 theorem matrix_cast_conj (sqrt : K → K) (m : M3 K) (hd : m.det ≠ 0) (o : Cast K) :
     (∀ (r : Ray K) (t : K), r.at t = m.mulColumn ((⟨m.inverse.mulColumn r.origin, m.inverse.mulColumn r.dir⟩ : Ray K).at t)) ∧
     (∀ S, CastsSurface o S →
       CastsSurface (matrixCast sqrt m m.inverse o)
-        (fun p n' => ∃ q n, S q n ∧ p = m.mulColumn q ∧ n' = (m.mulColumn n).normalize sqrt)) := by
+        (fun p n' => ∃ q n, S q n ∧ p = m.mulColumn q ∧
+          n' = (m.inverse.transpose.mulColumn n).normalize sqrt)) := by
   constructor
   · intro r t
     rw [mulColumn_at, mulColumn_inverse m hd]
@@ -285,22 +329,57 @@ theorem matrix_cast_conj (sqrt : K → K) (m : M3 K) (hd : m.det ≠ 0) (o : Cas
       apply h.complete r e t n' ht
       exact ⟨n, by rw [hp, inverse_mulColumn m hd]; exact hq, hn'⟩
 
-/-- **The reported normal is the right one for rotations and uniform scalings** (`mᵀm = s²·I`,
-`s² ≠ 0`; `Rotate`, `Scale` and their compositions): `m·n` is perpendicular to the image `m·v` of
-every tangent vector `v ⟂ n`, keeps its side (`(m n)·(m v) = s²·(n·v)`), and the normalised vector has
-unit length (given a square root that is exact on non-negative numbers). -/
-theorem matrix_normal_conformal (sqrt : K → K) (hsq : ∀ v : K, 0 ≤ v → sqrt v * sqrt v = v)
-    (m : M3 K) (s2 : K) (hc : m.transpose.mulM m = (M3.one : M3 K).scaleAll s2) (hs : 0 < s2)
-    (n : V3 K) (hn : n ≠ V3.zero) :
-    (∀ v, (m.mulColumn n).dot (m.mulColumn v) = s2 * n.dot v) ∧
-      ((m.mulColumn n).normalize sqrt).dot ((m.mulColumn n).normalize sqrt) = 1 := by
-  refine ⟨conformal_normal m s2 hc n, normalize_unit sqrt hsq _ ?_⟩
+/-- **The reported normal is the normal of the transformed surface, for every invertible matrix.**
+`m⁻ᵀ n` pairs with the image `m v` of any vector exactly as `n` pairs with `v`: it is perpendicular
+to the images of the tangent vectors (`n·v = 0`) and lies on the same side as the image of any
+vector on `n`'s side; after normalisation it has unit length (square root exact on non-negatives). -/
+theorem matrix_normal_inverse_transpose (sqrt : K → K) (hsq : ∀ v : K, 0 ≤ v → sqrt v * sqrt v = v)
+    (m : M3 K) (hd : m.det ≠ 0) (n : V3 K) (hn : n ≠ V3.zero) :
+    (∀ v, (m.inverse.transpose.mulColumn n).dot (m.mulColumn v) = n.dot v) ∧
+      ((m.inverse.transpose.mulColumn n).normalize sqrt).dot
+        ((m.inverse.transpose.mulColumn n).normalize sqrt) = 1 := by
+  refine ⟨inverse_transpose_normal m hd n, normalize_unit sqrt hsq _ ?_⟩
   intro h0
-  have h1 := conformal_normal m s2 hc n n
+  have h1 := inverse_transpose_normal m hd n n
   rw [h0] at h1
   have hp := dot_self_pos n hn
-  simp only [V3.dot, V3.zero] at h1 hp
-  nlinarith
+  simp only [V3.dot, V3.zero, zero_mul, add_zero] at h1 hp
+  linarith
+
+/-- For rotations composed with uniform scalings (`mᵀm = s²·I`; what `Rotate` and `Scale` build) the
+vector `m·n` the code used before the repair is `s²` times the inverse-transpose normal, i.e. the
+same direction: those objects are unaffected by the repair. -/
+theorem matrix_normal_conformal (m : M3 K) (hd : m.det ≠ 0) (s2 : K)
+    (hc : m.transpose.mulM m = (M3.one : M3 K).scaleAll s2) (n : V3 K) :
+    m.mulColumn n = (m.inverse.transpose.mulColumn n).scale s2 := by
+  -- both sides pair identically with every image vector `m v`, and `m` is onto
+  have key : ∀ w, (m.mulColumn n).dot w = ((m.inverse.transpose.mulColumn n).scale s2).dot w := by
+    intro w
+    have hw : w = m.mulColumn (m.inverse.mulColumn w) := (mulColumn_inverse m hd w).symm
+    rw [hw, conformal_normal m s2 hc]
+    have := inverse_transpose_normal m hd n (m.inverse.mulColumn w)
+    simp only [V3.dot, V3.scale] at this ⊢
+    linear_combination (-s2) * this
+  have hx := key ⟨1, 0, 0⟩
+  have hy := key ⟨0, 1, 0⟩
+  have hz := key ⟨0, 0, 1⟩
+  simp only [V3.dot, mul_one, mul_zero, add_zero, zero_add] at hx hy hz
+  ext
+  · exact hx
+  · exact hy
+  · exact hz
+
+/-- **Record of the third defect (fixed in transform.go).**  The old code mapped normals with `m`
+itself: for the anisotropic scale `diag(2,1,1)`, the normal `(1,1,0)` and the tangent `(1,−1,0)` of a
+surface, the reported normal `m·n = (2,1,0)` is not perpendicular to the image tangent `(2,−1,0)`
+(dot product 3), whereas the repaired code's `m⁻ᵀ n = (1/2,1,0)` is. -/
+theorem old_matrix_normal_not_perpendicular :
+    let m : M3 Rat := ⟨2, 0, 0, 0, 1, 0, 0, 0, 1⟩
+    let n : V3 Rat := ⟨1, 1, 0⟩
+    let v : V3 Rat := ⟨1, -1, 0⟩
+    n.dot v = 0 ∧ (m.mulColumn n).dot (m.mulColumn v) = 3 ∧
+      (m.inverse.transpose.mulColumn n).dot (m.mulColumn v) = 0 := by
+  decide +kernel
 
 /-- Non-vacuity of the conformality hypothesis: a quarter turn about z scaled by 2. -/
 example : (⟨0, -2, 0, 2, 0, 0, 0, 0, 2⟩ : M3 Rat).transpose.mulM ⟨0, -2, 0, 2, 0, 0, 0, 0, 2⟩
@@ -349,17 +428,17 @@ theorem uniform_emitter_radiance (scene : Ray K → Option (Hit K × Mat K σ)) 
     (cutoff eps : K) (hcut : cutoff ≤ 1) (E : V3 K)
     (hclosed : ∀ r, ∃ c m, scene r = some (c, m) ∧ m.emission = E ∧ m.ambient = V3.zero ∧
       ∀ n s d, m.bsdf n s d = V3.zero)
-    (maxDepth : Nat) (jitter : σ → Ray K × σ)
+    (maxDepth : Nat) (jitter : σ → Ray K × σ) (uniform : σ → K × σ) (focus : List (FocusPt K σ))
     (S : Sampler) (hN : 1 ≤ S.numSamples) (conv : Nat → V3 K → V3 K → Bool) (g : σ) :
     let draw : σ → V3 K × σ := fun g =>
-      recurse scene sqrt abs cutoff eps [] maxDepth true (jitter g).2 (jitter g).1 ⟨1, 1, 1⟩
+      recurse scene sqrt abs cutoff eps [] uniform focus maxDepth true (jitter g).2 (jitter g).1 ⟨1, 1, 1⟩
     (∀ g, (draw g).1 = E) ∧
       (estimateColor (Nat.cast : Nat → K) S conv draw g).1 = E ∧
       ∀ ray, rayCasterPixel scene sqrt [] ray = E := by
   intro draw
   have h1 : ∀ g, (draw g).1 = E := by
     intro g
-    apply recurse_uniform_emitter scene sqrt abs cutoff eps E hclosed
+    apply recurse_uniform_emitter scene sqrt abs cutoff eps uniform focus E hclosed
     have : ((1 : K) + 1 + 1) / 3 = 1 := by norm_num
     rw [this]; exact not_lt.mpr hcut
   refine ⟨h1, constant_stream_mean S hN conv draw g E h1, ?_⟩
@@ -384,13 +463,14 @@ theorem lit_matte_surface_radiance (scene : Ray K → Option (Hit K × Mat K σ)
       match scene ⟨point.add ((ld.normalize sqrt).scale eps), ld⟩ with
       | some (sc, _) => ¬ sc.scale < 1
       | none => True)
+    (uniform : σ → K × σ) (focus : List (FocusPt K σ))
     (S : Sampler) (hN : 1 ≤ S.numSamples) (conv : Nat → V3 K → V3 K → Bool) (g : σ) :
     let closed := lights.foldl (fun col l =>
       col.add ((l.shade sqrt c.normal (l.origin.sub (ray.origin.add (ray.dir.scale c.scale)))).mul rho))
       (m.ambient.add m.emission)
     rayCasterPixel scene sqrt lights ray = closed ∧
       (estimateColor (Nat.cast : Nat → K) S conv
-        (fun g => recurse scene sqrt abs cutoff eps lights 0 true g ray ⟨1, 1, 1⟩) g).1 = closed := by
+        (fun g => recurse scene sqrt abs cutoff eps lights uniform focus 0 true g ray ⟨1, 1, 1⟩) g).1 = closed := by
   intro closed
   have hrc : rayCasterPixel scene sqrt lights ray = closed := by
     simp only [rayCasterPixel, hs, hm, closed]
@@ -398,7 +478,7 @@ theorem lit_matte_surface_radiance (scene : Ray K → Option (Hit K × Mat K σ)
   apply constant_stream_mean S hN conv _ g closed
   intro g'
   rw [← hrc]
-  exact recurse_lit_matte scene sqrt abs cutoff eps hcut lights ray g' c m hs rho hm hshadow
+  exact recurse_lit_matte scene sqrt abs cutoff eps hcut lights uniform focus ray g' c m hs rho hm hshadow
 
 /-- Non-vacuity: a floor `z = 0` seen from `(0,0,2)` looking straight down, one white light at
 `(0,0,1)` above the hit point, `ρ = (1/2, 1/2, 1/2)`: ambient 1/8 + ¼·1·½ = 1/4 in every channel. -/
@@ -408,5 +488,153 @@ example :
     let scene : Ray Rat → Option (Hit Rat × Mat Rat Nat) := fun r => if r = ray then some (⟨2, ⟨0, 0, 1⟩, 0⟩, m) else none
     rayCasterPixel scene (fun _ => 1) [⟨⟨0, 0, 1⟩, ⟨1, 1, 1⟩, false⟩] ray = ⟨1/4, 1/4, 1/4⟩ := by
   decide +kernel
+
+/-! ## One bounce: matte surface lit by an emitter reached through `FocusPoints` -/
+
+/-- **Closed form of a ray-traced sample for a single lit matte surface at `MaxDepth ≥ 1`.**  The
+primary ray hits a surface `m`; `sampleNextSource` (material sampler or a focus point aimed at the
+light, chosen by `FocusPointProbs`) yields the direction `src`; the bounce ray hits an emitter `m2`
+with zero BSDF (an area light); no point lights; `Cutoff ≤ 1` and the bounce not cut off.  Then for
+every `MaxDepth = fuel + 1 ≥ 1` the sample is
+`emission + ambient + L₂ · BSDF(n, src, dest) · |src·n| / sourceDensity(src)`:
+the light's emission times the BSDF times the cosine, divided by the density of the *mixture* the
+direction was drawn from. -/
+theorem one_bounce_closed_form (scene : Ray K → Option (Hit K × Mat K σ)) (sqrt abs : K → K)
+    (cutoff eps : K) (uniform : σ → K × σ) (focus : List (FocusPt K σ))
+    (fuel : Nat) (g : σ) (ray : Ray K) (c : Hit K) (m : Mat K σ) (hs : scene ray = some (c, m))
+    (hcut : cutoff ≤ 1) (c2 : Hit K) (m2 : Mat K σ) (hB2 : ∀ n s d, m2.bsdf n s d = V3.zero) :
+    let point := ray.origin.add (ray.dir.scale c.scale)
+    let dest := (ray.dir.normalize sqrt).scale (-1)
+    let src := (sampleNextSource uniform focus m g point c.normal dest).1
+    let w := 1 / sourceDensity focus m point c.normal src dest * abs (src.dot c.normal)
+    let mask := (m.bsdf c.normal src dest).scale w
+    let dir := src.scale (-1)
+    let next : Ray K := ⟨point.add ((dir.normalize sqrt).scale eps), dir⟩
+    scene next = some (c2, m2) →
+    ¬ (mask.x + mask.y + mask.z) / 3 < cutoff →
+    (recurse scene sqrt abs cutoff eps [] uniform focus (fuel + 1) true g ray ⟨1, 1, 1⟩).1
+      = (m.emission.add m.ambient).add (m2.emission.mul mask) :=
+  recurse_one_bounce scene sqrt abs cutoff eps uniform focus fuel g ray c m hs hcut c2 m2 hB2
+
+/-- **`sampleNextSource` picks focus point `i` exactly when the uniform draw falls in the `i`-th
+interval of the cumulative `FocusPointProbs`** (`Σ_{j<i} prob_j ≤ p < Σ_{j≤i} prob_j`, an interval of
+length `prob_i`), and falls back to the material's own sampler exactly when `p ≥ Σ prob`. -/
+theorem focus_selection_intervals (p : K) (hp : 0 ≤ p) (fs : List (FocusPt K σ)) :
+    match pickFocus p fs with
+    | some f => ∃ i, ∃ hi : i < fs.length, fs[i] = f ∧
+        ((fs.take i).map (·.prob)).sum ≤ p ∧ p < ((fs.take (i + 1)).map (·.prob)).sum
+    | none => (fs.map (·.prob)).sum ≤ p :=
+  pickFocus_spec p hp fs
+
+/-- **`sourceDensity` is the density of that mixture**: `Σ probᵢ·FocusDensityᵢ + (1 − Σ probᵢ)·SourceDensity`. -/
+theorem source_density_is_mixture (focus : List (FocusPt K σ)) (m : Mat K σ) (point normal source dest : V3 K) :
+    sourceDensity focus m point normal source dest =
+      (focus.map fun f => f.prob * f.density m point normal source dest).sum
+        + (1 - (focus.map (·.prob)).sum) * m.density normal source dest :=
+  sourceDensity_eq_mixture focus m point normal source dest
+
+/-- **Dividing by the mixture density makes the bounce estimator unbiased** (exact expectation over
+any finite set of directions): drawing from proposal `s` with probability `p s` (and from the
+material's proposal `qm` otherwise) and weighting `f(ω)` by `1/mix(ω)` has expectation `Σ_ω f(ω)`,
+whenever the mixture density is non-zero on the directions considered. -/
+theorem mixture_importance_sampling_unbiased {Ω β : Type} (outcomes : List Ω) (S : List β) (p : β → K)
+    (q : β → Ω → K) (qm : Ω → K) (f : Ω → K)
+    (hmix : ∀ ω ∈ outcomes, (S.map fun s => p s * q s ω).sum + (1 - (S.map p).sum) * qm ω ≠ 0) :
+    let mix := fun ω => (S.map fun s => p s * q s ω).sum + (1 - (S.map p).sum) * qm ω
+    (S.map fun s => p s * (outcomes.map fun ω => q s ω * (f ω / mix ω)).sum).sum
+      + (1 - (S.map p).sum) * (outcomes.map fun ω => qm ω * (f ω / mix ω)).sum
+      = (outcomes.map f).sum :=
+  mixture_unbiased outcomes S p q qm f hmix
+
+/-! ## Bidirectional path tracer: multiple-importance weights and Russian roulette -/
+
+/-- **The balance-heuristic weights `rayColor` applies sum to one, and weighting is exactly what the
+code computes.**  For a path whose sampling strategies have densities `ds` (the list `Densities`
+reports; `Σ ds ≠ 0`): the weights `w_s = d_s / Σ ds` sum to 1, and the contribution the code adds,
+`intensity · (1/Σ ds)` (`misColor`), equals `w_s · (intensity / d_s)` for every strategy `s` with
+`d_s ≠ 0` — the importance-sampled value `intensity/d_s` times its weight. -/
+theorem mis_weights_sum_to_one (ds : List K) (hsum : ds.sum ≠ 0) (intensity : V3 K) :
+    (ds.map fun d => d / ds.sum).sum = 1 ∧
+      ∀ d ∈ ds, d ≠ 0 → misColor intensity ds = (intensity.scale (1 / d)).scale (d / ds.sum) := by
+  constructor
+  · rw [sum_map_div]; field_simp
+  · intro d _ hd
+    unfold misColor
+    rw [foldl_add_eq_sum, zero_add]
+    ext <;> simp only [V3.scale] <;> field_simp
+
+/-- **The weighted multi-strategy estimator is unbiased** (exact expectation over any finite set of
+paths): if strategy `s` produces path `x` with density `q s x` and every produced path contributes
+`f x / Σ_t q t x`, the total expectation is `Σ_x f x`, provided some strategy can produce each path. -/
+theorem mis_estimator_unbiased {Ω β : Type} (paths : List Ω) (S : List β) (q : β → Ω → K) (f : Ω → K)
+    (hpos : ∀ x ∈ paths, (S.map fun s => q s x).sum ≠ 0) :
+    (S.map fun s => (paths.map fun x => q s x * (f x / (S.map fun t => q t x).sum)).sum).sum
+      = (paths.map f).sum := by
+  have h := mixture_unbiased paths S (fun _ => (1 : K)) q (fun _ => 0) f
+    (by intro x hx; simpa using hpos x hx)
+  simpa using h
+
+/-- **Russian roulette is unbiased**: continuing with probability `p ≠ 0` and multiplying the
+surviving value by `1/p` (what `bptPathEnder.End` does to `currentRoulette`, and `rayColor` to a
+connection kept with probability `keepProb`) has the exact two-point expectation
+`p · (v · 1/p) + (1 − p) · 0 = v`. -/
+theorem roulette_unbiased (p v : K) (hp : p ≠ 0) : p * (v * (1 / p)) + (1 - p) * 0 = v := by
+  field_simp; ring
+
+/-- **`bptPathEnder.End` implements exactly that** (with `MinLength = 0`): the path mask is
+accumulated; while its mean is `≥ Cutoff` nothing random happens; below it the path survives iff the
+uniform draw is `≤ keepProb = mean/Cutoff`, and survival multiplies `RouletteScale` by `1/keepProb`. -/
+theorem path_ender_cutoff_roulette (cutoff : K) (uniform : σ → K × σ) (pe : PathEnder K) (g : σ) (i : Nat)
+    (mask : V3 K) :
+    let full := pe.fullMask.mul mask
+    let mean := (full.x + full.y + full.z) / 3
+    let keep := mean / cutoff
+    PathEnder.step 0 cutoff uniform pe g i mask =
+      if mean < cutoff then
+        (if keep < (uniform g).1 then (true, { pe with fullMask := full }, (uniform g).2)
+         else (false, { pe with fullMask := full, current := pe.current * (1 / keep) }, (uniform g).2))
+      else (false, { pe with fullMask := full }, g) :=
+  pathEnder_step_cutoff cutoff uniform pe g i mask
+
+/-! ## `Image` accessors -/
+
+/-- `Image.Set(x, y, c)` changes exactly pixel `(x, y)`: afterwards `At(x', y')` is `c` there and the
+old value everywhere else (coordinates inside the bounds checks). -/
+theorem image_set_at {C : Type} (z : C) (i : Img C) (x y x' y' : Nat) (c : C)
+    (hx : x < i.width) (hy : y < i.height) (hx' : x' < i.width) (hwf : i.data.length = i.width * i.height) :
+    (i.set x y c).at z x' y' = if x' = x ∧ y' = y then c else i.at z x' y' := by
+  apply set_at z i x y x' y' c hx hx'
+  rw [hwf]
+  calc x + y * i.width < i.width + y * i.width := by omega
+    _ = i.width * (y + 1) := by ring
+    _ ≤ i.width * i.height := Nat.mul_le_mul_left _ hy
+
+/-- **`Image.CopyFrom(i1, x, y)` writes every pixel of the overlap exactly as specified and nothing
+else**: pixel `(a, b)` of the result is `i1`'s pixel `(a−x, b−y)` if `(a, b)` lies in the
+`min(i1.Width, Width−x) × min(i1.Height, Height−y)` window at `(x, y)`, and the old pixel otherwise. -/
+theorem image_copy_from_spec {C : Type} (z : C) (i i1 : Img C) (x y a b : Nat)
+    (hwf : i.data.length = i.width * i.height) (hwf1 : i1.data.length = i1.width * i1.height)
+    (hx : x ≤ i.width) (hy : y ≤ i.height) (ha : a < i.width) (hb : b < i.height) :
+    (i.copyFrom i1 x y).at z a b =
+      if x ≤ a ∧ a < x + min i1.width (i.width - x) ∧ y ≤ b ∧ b < y + min i1.height (i.height - y)
+      then i1.at z (a - x) (b - y) else i.at z a b := by
+  have h := copyFrom_rows z i.width i.height x y (min i1.width (i.width - x)) i1.width i1.data i.data hwf
+    (by omega) (Nat.min_le_left _ _) (min i1.height (i.height - y)) (by omega)
+    (by rw [hwf1]; exact Nat.mul_le_mul_left _ (Nat.min_le_left _ _))
+  exact h.2 a b ha hb
+
+/-- **`Image.Downsample(factor)` is the block mean**: output pixel `(j, i1)` is the arithmetic mean
+(`meanOf`: sum in loop order times `1/factor²`) of the `factor × factor` block of source pixels
+`(j·factor + l, i1·factor + k)`, and each output pixel is produced exactly once in row-major order. -/
+theorem downsample_is_block_mean (i : Img (V3 K)) (f j i1 : Nat)
+    (hj : j < i.width / f) (hi : i1 < i.height / f) :
+    (i.downsample (Nat.cast : Nat → K) f).at V3.zero j i1 = meanOf Nat.cast (blockPixels i f i1 j) ∧
+      (blockPixels i f i1 j).length = f * f ∧
+      (i.downsample (Nat.cast : Nat → K) f).data.length = (i.width / f) * (i.height / f) := by
+  refine ⟨downsample_at _ i f j i1 hj hi, blockPixels_length i f i1 j, ?_⟩
+  simp [Img.downsample, flatMap_rows]
+
+example : ((⟨[⟨1,0,0⟩, ⟨2,0,0⟩, ⟨3,0,0⟩, ⟨4,0,0⟩, ⟨5,0,0⟩, ⟨6,0,0⟩, ⟨7,0,0⟩, ⟨8,0,0⟩], 4, 2⟩ : Img (V3 Rat)).downsample
+    (fun n => (n : Rat)) 2).data = [⟨7/2, 0, 0⟩, ⟨11/2, 0, 0⟩] := by decide +kernel
 
 end M3d.C20
